@@ -131,6 +131,16 @@ class SBytes(object):
     def __hash__(self):
         return id(self)
 
+    def decode(self, encoding="utf-8", errors="strict"):
+        """bytes.decode: assumed total here (the repository retries with errors='replace') and a function
+        of the bytes: the result is an atom identified by (content, offset, length)"""
+        trusted("bytes.decode('utf-8'): the text is a function of the byte string (equal bytes <=> equal text "
+                "for valid UTF-8); str.encode is its inverse")
+        f = z3.Function("strid", z3.IntSort(), z3.IntSort(), z3.IntSort())
+        s = SymStr(sym._lift(f(_z(self.off), _z(self.length))), "decoded")
+        s.src = self
+        return s
+
 
 def _sbytes_getitem(interp, b, k):
     if isinstance(k, slice):
@@ -610,13 +620,39 @@ def m_tuple(interp, it=()):
     return tuple(interp.iterate(it))
 
 
+class DistinctList(object):
+    """a set of possibly symbolic values: elements pairwise distinct on the current path (decided by split)"""
+
+    def __init__(self, items):
+        self.items = items
+
+    def __len__(self):
+        return len(self.items)
+
+    def __iter__(self):
+        return iter(self.items)
+
+    def __contains__(self, x):
+        return any(bool(x == y) for y in self.items)
+
+    def __sub__(self, o):
+        return DistinctList([x for x in self.items if x not in o])
+
+
 def m_set(interp, it=()):
-    out = set()
-    for x in interp.iterate(it):
-        if is_sym(x):
-            raise Unsupported("symbolic set element")
-        out.add(x)
-    return out
+    xs = list(interp.iterate(it))
+    if not any(is_sym(x) or isinstance(x, SymStr) for x in xs):
+        return set(xs)
+    out = []
+    for x in xs:
+        dup = False
+        for y in out:
+            if interp.truth(x == y):
+                dup = True
+                break
+        if not dup:
+            out.append(x)
+    return DistinctList(out)
 
 
 def m_dict(interp, *a, **kw):
